@@ -114,6 +114,7 @@ class Contract:
         self.post_ghost = []
         self.classes = None       # verify once per concrete class of self
         self.lets = []            # ghost definitions (name, expr), evaluated in the pre-state
+        self.ghost_sets = []      # (attribute expr, value expr): ghost field updates performed at entry of the body
         self.options = {}
 
     @property
@@ -249,6 +250,7 @@ class Specs:
         if len(body) != 1 or not isinstance(body[0], ast.Return):
             raise ValueError('spec function %s must be a single return expression' % node.name)
         f.body = body[0].value
+        f.opaque = bool(ast.literal_eval(kw['opaque'])) if 'opaque' in kw else False
         (table if table is not None else self.funcs)[node.name] = f
 
     def _load_contract(self, node, args, kw):
@@ -290,6 +292,8 @@ class Specs:
                 c.raises.append((call.args[0].id, when))
             elif fn == 'modifies':
                 c.modifies = (c.modifies or []) + list(call.args)
+            elif fn == 'ghost_set':
+                c.ghost_sets.append((call.args[0], call.args[1]))
             elif fn in ('use', 'hint', 'unfold'):
                 (c.post_ghost if seen_ens else c.pre_ghost).append(call)
             elif fn in ('use_post', 'hint_post'):
@@ -317,11 +321,11 @@ class Specs:
                 l.invariants.append(call.args[0])
             elif fn == 'decreases':
                 l.decreases = call.args[0]
-            elif fn in ('use_head', 'hint_head'):
+            elif fn in ('use_head', 'hint_head', 'unfold_head'):
                 l.head_ghost.append(call)
-            elif fn in ('use_back', 'hint_back'):
+            elif fn in ('use_back', 'hint_back', 'unfold_back'):
                 l.back_ghost.append(call)
-            elif fn in ('use_exit', 'hint_exit'):
+            elif fn in ('use_exit', 'hint_exit', 'unfold_exit'):
                 l.exit_ghost.append(call)
             else:
                 raise ValueError('loop spec: unknown clause ' + fn)
@@ -344,6 +348,9 @@ class Specs:
             for n in ast.walk(f.body):
                 if isinstance(n, ast.Call) and isinstance(n.func, ast.Name) and n.func.id == f.name:
                     f.recursive = True
+            f.self_recursive = f.recursive
+            if getattr(f, 'opaque', False):
+                f.recursive = True       # handled like recursive ones: uninterpreted + one unfolding per occurrence
 
     def loop(self, qname, ordinal):
         return self.loops.get((qname, ordinal))
